@@ -16,7 +16,9 @@ use surrealkv::verif::VerifOracle;
 #[derive(Clone, Debug, PartialEq, Serialize, Deserialize)]
 pub enum OOp {
     Begin { slot: u8 },
-    Commit { slot: u8, keys: Vec<u8>, fail: bool },
+    /// `defer` > 0: a failing commit rolls its stamps back only after that many further operations (its apply is still
+    /// running, outside the commit lock, while others go through their critical sections)
+    Commit { slot: u8, keys: Vec<u8>, fail: bool, #[serde(default)] defer: u8 },
     Drop { slot: u8 },
     ForceGc,
     /// many ordinary commits of private keys by short transactions (moves the GC counter and the sequence on)
@@ -49,6 +51,9 @@ pub fn run_oracle_case(case: &OCase) -> CaseResult {
     let mut private = 0u32;
     let fail = |class: &str, msg: String, aux: serde_json::Value| Failure { class: class.into(), step: usize::MAX, msg, aux };
     let mut known_f34: Option<String> = None;
+    // failing commits whose rollback is still to come: (keys, stamp, operations left)
+    let mut pending: Vec<(Vec<Vec<u8>>, u64, u8)> = Vec::new();
+    let mut defer_next: u8 = 0;
 
     // one commit through the oracle, as the pipeline's critical section does it
     macro_rules! commit {
@@ -75,6 +80,10 @@ pub fn run_oracle_case(case: &OCase) -> CaseResult {
                     } else {
                         return CaseResult { stats, failure: Some(fail("lost-update", msg, json!({}))), nontrivial: false };
                     }
+                }
+                ("conflict", None) if pending.iter().any(|(pk, ps, _)| *ps > start && pk.iter().any(|k| keys.contains(k))) => {
+                    // the stamp of a commit that is still in flight (it will fail, but nobody knows yet)
+                    stats.inc("conflict_with_an_in_flight_commit");
                 }
                 ("conflict", None) => {
                     return CaseResult { stats, failure: Some(fail("spurious-conflict", format!("op {}: check(start={start}) reported a conflict but no effective commit of these keys has a sequence above {start}", $i), json!({}))), nontrivial: false };
@@ -111,7 +120,10 @@ pub fn run_oracle_case(case: &OCase) -> CaseResult {
                     stats.inc("gc_may_have_run");
                 }
                 let stamp = seq + count - 1;
-                if $fails {
+                if $fails && defer_next > 0 {
+                    pending.push((keys.clone(), stamp, defer_next));
+                    stats.inc("rollbacks_deferred");
+                } else if $fails {
                     o.rollback(&keys, stamp);
                     for k in &keys {
                         rolled.push((k.clone(), stamp));
@@ -129,6 +141,24 @@ pub fn run_oracle_case(case: &OCase) -> CaseResult {
     }
 
     for (i, op) in case.ops.iter().enumerate() {
+        // rollbacks that fall due (a restore waits for everything in flight first)
+        let all_due = matches!(op, OOp::Restore);
+        let mut k = 0;
+        while k < pending.len() {
+            if pending[k].2 == 0 || all_due {
+                let (keys, stamp, _) = pending.remove(k);
+                o.rollback(&keys, stamp);
+                for key in &keys {
+                    rolled.push((key.clone(), stamp));
+                    rolled_at.push(effective.len());
+                }
+                stats.inc("rollbacks");
+                stats.inc("rollbacks_after_other_critical_sections");
+            } else {
+                pending[k].2 -= 1;
+                k += 1;
+            }
+        }
         match op {
             OOp::Begin { slot } => {
                 live.entry(*slot % 6).or_insert(next - 1);
@@ -167,7 +197,8 @@ pub fn run_oracle_case(case: &OCase) -> CaseResult {
                     commit!(start, vec![k], false, i, None::<u8>);
                 }
             }
-            OOp::Commit { slot, keys, fail: fails } => {
+            OOp::Commit { slot, keys, fail: fails, defer } => {
+                defer_next = if *fails { *defer } else { 0 };
                 let s = *slot % 6;
                 let Some(start) = live.get(&s).copied() else { continue };
                 let mut ks: Vec<Vec<u8>> = keys.iter().map(|k| key(*k)).collect();
@@ -181,6 +212,7 @@ pub fn run_oracle_case(case: &OCase) -> CaseResult {
                     stats.inc("overlapping_writer");
                 }
                 commit!(start, ks, *fails, i, Some(s));
+                defer_next = 0;
                 live.remove(&s);
             }
         }
@@ -193,7 +225,7 @@ pub fn run_oracle_case(case: &OCase) -> CaseResult {
 pub fn oracle_strategy() -> BoxedStrategy<OCase> {
     let op = prop_oneof![
         8 => (0u8..6).prop_map(|slot| OOp::Begin { slot }),
-        10 => (0u8..6, proptest::collection::vec(0u8..5, 1..=3), prop_oneof![6 => Just(false), 1 => Just(true)]).prop_map(|(slot, keys, fail)| OOp::Commit { slot, keys, fail }),
+        10 => (0u8..6, proptest::collection::vec(0u8..5, 1..=3), prop_oneof![6 => Just(false), 1 => Just(true)], prop_oneof![Just(0u8), Just(0u8), 1u8..5]).prop_map(|(slot, keys, fail, defer)| OOp::Commit { slot, keys, fail, defer }),
         2 => (0u8..6).prop_map(|slot| OOp::Drop { slot }),
         3 => Just(OOp::ForceGc),
         2 => prop_oneof![4 => (1u16..6), 1 => (1000u16..1100)].prop_map(|n| OOp::Traffic { n }),
@@ -208,7 +240,7 @@ pub fn c04_oracle() -> PropDef<OCase> {
         id: "C04",
         engine: "sched",
         level: "exploration",
-        rule: "oracle-level stream: sequences of begin / commit (1..3 of 5 shared keys) / failing commit (publish then rollback) / drop / forced GC / bursts of 1..5 or >1000 private commits (more than one GC interval) / checkpoint / restore over 6 transaction slots, applied to the real CommitOracle through the guarded facade exactly as the commit pipeline's critical section calls it (check, then publish with oldest_active = smallest live start clamped by the committer's start, then rollback for failing commits; reset_for_restore on restore). Model: the list of all effective commits (key, stamp). check(start) must fail if an effective commit of one of the keys has a stamp above start (no lost update), may report a conflict only if such a commit exists, and may ask for a retry only if start lies below something that was pruned (GC with that oldest_active) or forgotten (restore). Non-trivial: a committer overlapped an effective writer of one of its keys and a GC, a restore or a rollback happened in the sequence.".into(),
+        rule: "oracle-level stream: sequences of begin / commit (1..3 of 5 shared keys) / failing commit (publish, then rollback at once or only after 1..4 further operations - its apply is still running while others pass their critical sections) / drop / forced GC / bursts of 1..5 or >1000 private commits (more than one GC interval) / checkpoint / restore over 6 transaction slots, applied to the real CommitOracle through the guarded facade exactly as the commit pipeline's critical section calls it (check, then publish with oldest_active = smallest live start clamped by the committer's start, then rollback for failing commits; reset_for_restore on restore). Model: the list of all effective commits (key, stamp). check(start) must fail if an effective commit of one of the keys has a stamp above start (no lost update), may report a conflict only if such a commit exists (or a failing commit that has not rolled back yet holds a stamp above start), and may ask for a retry only if start lies below something that was pruned (GC with that oldest_active) or forgotten (restore). Non-trivial: a committer overlapped an effective writer of one of its keys and a GC, a restore or a rollback happened in the sequence.".into(),
         assumptions: vec!["sequential: one critical section at a time (as under write_mutex); 64-bit fingerprint collisions are ignored".into()],
         strategy: Arc::new(oracle_strategy),
         run: Arc::new(|c: &OCase, _d: &Path| run_oracle_case(c)),
